@@ -180,6 +180,13 @@ fn set_spec(prop: &str, thorough: bool, rng: &mut Rng, universe: u32, n_ops: usi
         }
         "C08" => gen(Family::Set, universe, with(SET_CORE, &[(Kd::WithCapacity, 6), (Kd::New, 2), (Kd::DropSlot, 2), (Kd::Reserve, 8), (Kd::FillNoAlloc, 8), (Kd::Clear, 4), (Kd::Drain, 4), (Kd::ShrinkTo, 8), (Kd::ShrinkToFit, 4)], rng)),
         "C09" => gen(Family::Set, universe, with(SET_CORE, &[(Kd::Iter, 30), (Kd::IntoIter, 8), (Kd::Drain, 8)], rng)),
+        "C12" => {
+            let mut g = gen(Family::Set, universe, with(SET_CORE, &[(Kd::TryReserve, 30)], rng));
+            g.refusals = true;
+            g.huge_reserve = true;
+            g
+        }
+        "C14" => gen(Family::Set, universe, with(SET_CORE, &[(Kd::Entry, 50), (Kd::FillNoAlloc, 5), (Kd::New, 2)], rng)),
         "C10" => gen(Family::Set, universe, with(SET_CORE, &[(Kd::Retain, 14), (Kd::ExtractIf, 16), (Kd::Drain, 12)], rng)),
         "C11" => {
             cfg.plans = (0..3).map(|_| Plan::random(rng)).collect();
@@ -194,7 +201,7 @@ fn set_spec(prop: &str, thorough: bool, rng: &mut Rng, universe: u32, n_ops: usi
 fn set_share(prop: &str) -> u64 {
     match prop {
         "C07" => 100,
-        "C02" | "C03" | "C04" | "C05" | "C08" | "C09" | "C10" | "C11" => 15,
+        "C02" | "C03" | "C04" | "C05" | "C08" | "C09" | "C10" | "C11" | "C12" | "C14" => 15,
         _ => 0,
     }
 }
